@@ -8,6 +8,7 @@ import (
 	"encoding/binary"
 	"fmt"
 	"net"
+	"sort"
 	"strings"
 	"sync"
 	"testing"
@@ -60,6 +61,10 @@ type Scenario struct {
 	ReadMS    int `json:"read_ms"`
 	CheckMS   int `json:"check_ms"`
 	Packets   int `json:"packets"`
+	// Workload "mcsrc" (mcsrc.go): multicast reader against a scripted camera whose SETUP answer names
+	// the source of the group traffic (SrcNamed) or leaves it to the RTSP server's address.
+	Workload string `json:"workload,omitempty"`
+	SrcNamed bool   `json:"src_named,omitempty"`
 }
 
 func gen(seed uint64, tier string) Scenario {
@@ -133,6 +138,18 @@ func gen(seed uint64, tier string) Scenario {
 		}
 	}
 	sc.Net = n
+	// the scripted multicast camera (hash-derived so that no other seed's scenario moves)
+	if x := core.HS(seed, "c19.mcsrc", "", 0); x%100 < 8 {
+		sc = Scenario{Seed: seed, Net: n, Role: "play", Transport: "mcast", Workload: "mcsrc", IdleMS: sc.IdleMS, ReadMS: sc.ReadMS, CheckMS: sc.CheckMS, Packets: sc.Packets}
+		sc.SrcNamed = (x>>8)%3 != 0
+		ns := 2 + int((x>>12)%4)
+		for i := 0; i < ns; i++ {
+			y := core.HS(seed, "c19.mcsrc.spoof", "", uint64(i))
+			sc.Spoofs = append(sc.Spoofs, Spoof{AtMS: 20 + int(y%uint64(sc.Packets*20)), Count: 1 + int((y>>16)%12),
+				Target: []string{"rtp", "rtp", "rtcp"}[(y>>24)%3], Src: []string{"rtsp-server", "rtsp-server", "same-ip-other-port", "other-ip-same-port", "other-ip"}[(y>>32)%5]})
+		}
+		sort.Slice(sc.Spoofs, func(i, j int) bool { return sc.Spoofs[i].AtMS < sc.Spoofs[j].AtMS })
+	}
 	return sc
 }
 
@@ -155,6 +172,9 @@ func payload(magic uint32, c int) []byte {
 }
 
 func run(t *testing.T, sc Scenario) *core.Result {
+	if sc.Workload == "mcsrc" {
+		return runMcsrc(t, sc)
+	}
 	opts := sys.Options{Seed: sc.Seed, Net: sc.Net, MaxSteps: 600000, Horizon: 20 * time.Minute}
 	var summary map[string]any
 	res := sys.Run(t, opts, func(w *sys.World) {
@@ -736,11 +756,12 @@ func init() {
 	f := core.Register("C19", gen, run, shrink)
 	f.Real = []string{"gortsplib.Server (serverUDPListener, ServerSession, ServerConn), gortsplib.Client (clientUDPListener)"}
 	f.Simulated = []string{"UDP/TCP sockets incl. forged source addresses (simnet.WriteFromTo) and IPv4-mapped source forms", "clock (fake)", "spoofing node and intruding control connections (harness code)"}
-	f.Excluded = []string{"pkg/multicast's raw-socket platform files (stand-in binding the group address through the ListenPacket seam)", "a Transport answer with source= other than the server's address (the library's server never sends one)", "IP-layer zones"}
-	f.Rule = "scenario = role (play | record) x transport (udp | tcp | UDP-multicast reader: forged datagrams go to the group and reach the reader's and the server's multicast listeners, sources incl. the reader's address with another port) x AnyPortEnable x source-address form (4-byte | IPv4-mapped 16-byte) x 1..8 bursts of forged datagrams (valid RTP for the session / RTCP sender reports) to the receiving side's RTP or RTCP port from {another IP, another IP with the legitimate port, the legitimate IP with another port, the IPv4-mapped form of another IP} x 0..4 foreign control requests carrying the stolen session id (7 methods) from another IP, or from the same IP on another connection while the session streams interleaved, in the set-up / streaming / paused states x optional silent disappearance of the legitimate peer while the spoofer goes on; non-trivial = legitimate packets were delivered and forged datagrams reached a media socket or an intrusion was judged; distinct = distinct canonical event log"
+	f.Excluded = []string{"pkg/multicast's raw-socket platform files (stand-in binding the group address through the ListenPacket seam)", "IP-layer zones"}
+	f.Rule = "scenario = role (play | record) x transport (udp | tcp | UDP-multicast reader: forged datagrams go to the group and reach the reader's and the server's multicast listeners, sources incl. the reader's address with another port) x AnyPortEnable x source-address form (4-byte | IPv4-mapped 16-byte) x 1..8 bursts of forged datagrams (valid RTP for the session / RTCP sender reports) to the receiving side's RTP or RTCP port from {another IP, another IP with the legitimate port, the legitimate IP with another port, the IPv4-mapped form of another IP} x 0..4 foreign control requests carrying the stolen session id (7 methods) from another IP, or from the same IP on another connection while the session streams interleaved, in the set-up / streaming / paused states x optional silent disappearance of the legitimate peer while the spoofer goes on; non-trivial = legitimate packets were delivered and forged datagrams reached a media socket or an intrusion was judged; distinct = distinct canonical event log; 8% of the runs use the workload mcsrc instead: a multicast reader against a scripted, well-behaved multicast camera whose SETUP answer names the source of the group traffic (another host than the RTSP server) or not, packets from the negotiated source must all arrive, forged ones from the RTSP server's address / the source with another port / other hosts must not reach callbacks or statistics"
 	f.Assumptions = []string{
 		"with AnyPortEnable the source port is relaxed by design: only forged datagrams from another IP are asserted there",
 		"a request from the creating IP on another connection is only asserted to fail while the session streams over an interleaved connection",
+		"when the SETUP answer of a multicast session names a source= host, that host (with the group port) is the negotiated peer; otherwise the RTSP server's address is",
 		"the expiry bound for a silent legitimate peer is last legitimate activity + IdleTimeout (play) / ReadTimeout (record) + one check period + 2 s",
 	}
 }
